@@ -13,6 +13,7 @@ import (
 	"path/filepath"
 	"strconv"
 	"strings"
+	"sync"
 	"testing"
 	"time"
 
@@ -379,6 +380,46 @@ func TestVFC12RateLimitHTTP(t *testing.T) {
 						reachedLimit = true
 						vfC12.Class("limiter:limit_reached_by_basic")
 					}
+				}
+			},
+			"basic_burst": func(t *rapid.T) {
+				// many guesses at once from one (other) address: however they
+				// overlap, no more passwords are evaluated than the limit
+				// allows, and the address is blocked afterwards
+				k := rapid.IntRange(max+1, max+12).Draw(t, "parallel_guesses")
+				floodSeq++
+				ip := fmt.Sprintf("192.0.2.%d", 100+floodSeq%100)
+				remote := ip + ":6000"
+				rl.remove(ip)
+				var wg sync.WaitGroup
+				for i := 0; i < k; i++ {
+					wg.Add(1)
+					go func() {
+						defer wg.Done()
+						r := httptest.NewRequest(http.MethodGet, "http://agh.vf.test/control/status", nil)
+						r.SetBasicAuth(vfAdminUser, "wrong")
+						r.RemoteAddr = remote
+						h.ServeHTTP(httptest.NewRecorder(), r)
+					}()
+				}
+				wg.Wait()
+				vfC12.Eval()
+				vfC12.Class("limiter:basic_burst")
+				rl.failedAuthsLock.Lock()
+				evaluated := rl.failedAuths[ip].num
+				rl.failedAuthsLock.Unlock()
+				trace = append(trace, fmt.Sprintf("t=%s %s %d wrong basic attempts at once -> %d evaluated", now, remote, k, evaluated))
+				if evaluated > uint(max) {
+					t.Fatalf("%d wrong Basic attempts arriving at once from %s: %d passwords were evaluated, the limit is %d\nmax=%d block=%s trace:\n%s",
+						k, remote, evaluated, max, max, blockDur, strings.Join(trace, "\n"))
+				}
+				r := httptest.NewRequest(http.MethodGet, "http://agh.vf.test/control/status", nil)
+				r.SetBasicAuth(vfAdminUser, vfAdminPass)
+				r.RemoteAddr = remote
+				rec := httptest.NewRecorder()
+				h.ServeHTTP(rec, r)
+				if rec.Code == http.StatusOK {
+					t.Fatalf("after %d wrong Basic attempts at once (limit %d) the correct password from %s was served", k, max, remote)
 				}
 			},
 			"many_other_addresses_fail": func(t *rapid.T) {
